@@ -85,6 +85,7 @@ var pointFuncs = []string{
 var pointFuncsOptional = []string{
 	"internal/queue:MemoryStore.*",
 	"internal/app:runtimeState.loadAuth",
+	"internal/app:runtimeState.allowIngress",
 	"internal/admin:Server.handleMessagesPublish",
 	"internal/admin:Server.handleApplicationEndpointPublish",
 	"internal/mcp:Server.toolConfigApply",
